@@ -135,6 +135,17 @@ def cli_sample(bins, pid, tier, seed):
         try:
             for t in ts:
                 fx.add_cmd(t["path"], "build", [{"op": "exit", "code": 0}], ext=".sh")
+            if i % 3 == 2:
+                # one target keeps nothing but symbolic links in its directory: every regular file of it (sources, the
+                # command directory) lives elsewhere in the repository and is reached through a link
+                leaves = [t["path"] for t in ts[1:] if not any(o["path"].startswith(t["path"] + "/") for o in ts)]
+                if leaves:
+                    lp = rng.choice(leaves)
+                    store = os.path.join(fx.repo, ".store", lp.replace("/", "_"))
+                    os.makedirs(store)
+                    for entry in os.listdir(os.path.join(fx.repo, lp)):
+                        os.rename(os.path.join(fx.repo, lp, entry), os.path.join(store, entry))
+                        os.symlink(os.path.relpath(os.path.join(store, entry), os.path.join(fx.repo, lp)), os.path.join(fx.repo, lp, entry))
             fx.git_init()
             cfg = runlib.cfg_abs(ts)
             allr = sorted(runlib.P(t["path"]) for t in ts)
@@ -156,6 +167,27 @@ def cli_sample(bins, pid, tier, seed):
                 a_recs.append({"ev": "groups", "config": cfg, "roots": allr, "pruned": True, "changed": [], "out": groups_of(r, "target_groups"),
                                "via": "cli_analyze_checkpointed_nothing_changed"})
                 fx.monorail(["checkpoint", "delete"])
+            # the pruned grouping with something changed: a file is pending at the checkpoint and changes again afterwards,
+            # arriving with an OLD modification time (cp -p, rsync -t, tar x, a clock that stepped back)
+            plain_src = [t["path"] for t in ts if not os.path.islink(os.path.join(fx.repo, t["path"], "src.txt"))
+                         and not os.path.islink(os.path.join(fx.repo, t["path"]))]
+            if plain_src and i % 2 == 0:
+                xp = rng.choice(plain_src)
+                fp = os.path.join(fx.repo, xp, "src.txt")
+                with open(fp, "a") as f:
+                    f.write("pending edit\n")
+                if fx.monorail(["checkpoint", "update", "--pending"])["rc"] == 0:
+                    r = fx.monorail(["analyze", "--target-groups"])
+                    a_recs.append({"ev": "groups", "config": cfg, "roots": allr, "pruned": True, "changed": [], "change_paths": [],
+                                   "out": groups_of(r, "target_groups"), "via": "cli_analyze_pending_checkpoint_nothing_changed"})
+                    with open(fp, "a") as f:
+                        f.write("edited again %d\n" % i)
+                    os.utime(fp, (1262304000 + i, 1262304000 + i))
+                    r = fx.monorail(["analyze", "--target-groups"])
+                    a_recs.append({"ev": "groups", "config": cfg, "roots": allr, "pruned": True, "changed": [], "change_paths": [runlib.P(xp + "/src.txt")],
+                                   "out": groups_of(r, "target_groups"), "via": "cli_analyze_pending_checkpoint_old_mtime_edit"})
+                    fx.monorail(["checkpoint", "delete"])
+                fx.git("checkout", "--", xp + "/src.txt")
             dot = os.path.join(fx.root, "g.dot")
             if i % 2 == 0:
                 # the output file already holds an older, longer render: nothing of it may survive
@@ -279,7 +311,11 @@ def cli_c01_sample(bins, tier, seed):
                 per = sorted(({"path": runlib.P(c["path"]), "targets": sorted(({"path": runlib.P(t["path"]), "reason": t["reason"]} for t in (c.get("targets") or [])),
                                                                              key=lambda x: json.dumps(x))} for c in (o.get("changes") or [])), key=lambda x: json.dumps(x))
                 pres = [sorted(runlib.P(t) for t in ((plain["out"] or {}).get("targets") or []))] if plain["rc"] == 0 else [[["<error>", "plain analyze failed"]]]
+                # what has changed since the checkpoint (= HEAD here), asked of git independently of monorail's own query
+                st = fx.git("status", "--porcelain", "-z", "--untracked-files=all", "--no-renames")
+                true_changes = sorted({e[3:] for e in st.split("\0") if len(e) > 3})
                 recs.append({"ev": "analyze", "config": cfg, "changes": [runlib.P(c["path"]) for c in (o.get("changes") or [])],
+                             "true_changes": [runlib.P(x) for x in true_changes],
                              "out": {"ok": True, "targets": sorted(runlib.P(t) for t in tv), "strictly_sorted": all(tv[k].encode() < tv[k + 1].encode() for k in range(len(tv) - 1)),
                                      "per_change": per, "singles": [], "pairs": [], "presentations": pres}, "via": "cli", "step": step})
             # edits: modify, create, remove (a removed file, and a removed directory that a uses / ignores entry names)
@@ -290,6 +326,14 @@ def cli_c01_sample(bins, tier, seed):
                 shutil.rmtree(os.path.join(fx.repo, rng.choice(dirs), "gen"), ignore_errors=True)
             if rng.random() < 0.4:
                 os.remove(os.path.join(fx.repo, rng.choice(["shared/proto", "shared/docs"]), "f.txt"))
+            # files rewritten with the content they already have (new modification time, same bytes) have not changed
+            for d in rng.sample(dirs, rng.randint(1, 3)):
+                fp = os.path.join(fx.repo, d, rng.choice(["f.txt", "README.md", "sub/x.rs"]))
+                if os.path.exists(fp):
+                    data = open(fp, "rb").read()
+                    with open(fp, "wb") as f:
+                        f.write(data)
+                    os.utime(fp, (time.time() + 7, time.time() + 7))
             ask(0)
             for step in (1, 2):
                 # the configuration changes, the changed files stay the same
